@@ -438,6 +438,44 @@ def l4_mirror_fallback(run):
     sync_model_stream(run, 20)
 
 
+def l4_filter_stream(run, n):
+    """C06 at L4: generated tree pairs synced through the CLI with a filter list (always non-empty here), 4 placements: what the
+    filters include is mirrored, what they exclude is byte-identical before and after on both sides (independent evaluation of the rule)"""
+    rng = run.rng
+    sb = l4.Sandbox(); sb.place_remote('same')
+    fails = []
+    try:
+        for i in range(n):
+            c = M.gen_case(rng, sb, i, root_leaf_prob=0.0)
+            c.filters = rng.choice([f for f in M.FILTER_SETS if f] + [['-.*keep.*'], ['+.*', '-.*/.*'], ['-L1', '-L2', '+L1'], ['-(a|b)'], ['+[a-c]', '+[a-c]/.*'], ['-a|b/c']])
+            c.args = [a for a in c.args if True]
+            # rebuild the argument vector with the chosen filters
+            pos = c.args[:2]
+            c.args = pos + [x for f in c.filters for x in ('--filter', f)] + M.FLAGS_NO_SKIP
+            before = M.snap_all(c)
+            r = M.run_case(sb, c)
+            after = M.snap_all(c)
+            run.case(('l4-filters', i, tuple(c.filters)), r['rc'] == 0, sample=dict(layer='L4', **M.describe(c), rc=r['rc']) if i % 10 == 0 else None)
+            run.count(f'l4-filters:{c.placement}:rc={r["rc"]}'); run.cov['traces_validated_against_impl'] += 1
+            diffs = []
+            if before['src'] != after['src']: diffs.append('the source changed')
+            if r['rc'] == 0:
+                diffs += M.mirror_diffs(before['src'], before['dst'], after['dst'], c.filters)
+            elif r['rc'] == 12 and not r['timeout']:
+                # a failed run (e.g. a hidden entry beneath a folder that must go): excluded entries are still untouched
+                for p_, b_ in before['dst'].items():
+                    if M.visible(c.filters, p_) is False and after['dst'].get(p_) != b_ and not any(M.visible(c.filters, p_[:k]) is False for k in range(len(p_)) if p_[k:k + 1] == b'/'):
+                        diffs.append(f'{p_!r}: filter-excluded destination entry changed although the run failed')
+            else:
+                diffs.append(f'exit status {r["rc"]}')
+            if diffs and len(fails) < 3:
+                fails.append(dict(layer='L4', **M.describe(c), rc=r['rc'], differences=diffs[:6], src_tree=M.tree_listing(c.src_path), dest_tree_after=M.tree_listing(os.path.join(c.base, 'dd')), stderr=r['err'][-300:]))
+            shutil.rmtree(c.base, ignore_errors=True)
+    finally:
+        subprocess.run(['chmod', '-R', 'u+rwx', sb.dir], capture_output=True); sb.close()
+    return fails
+
+
 def _register_fallbacks():
     from .props import FALLBACKS
     FALLBACKS.setdefault('*', []).append(l4_mirror_fallback)
